@@ -725,6 +725,9 @@ func (ev *Env) call(e *ECall) Value {
 	if fd, ok := fx.E.S.Folds[e.Fun]; ok {
 		return ev.evalFold(fd, e)
 	}
+	if od, ok := fx.E.S.Orbits[e.Fun]; ok {
+		return ev.evalOrbit(od, e)
+	}
 	if fx.E.S.GhostFields[e.Fun] {
 		if len(e.Args) != 1 {
 			ev.errf("ghost field %s expects one argument (the object)", e.Fun)
@@ -850,6 +853,64 @@ func (ev *Env) evalFold(fd *Fold, e *ECall) Value {
 			prev := Sub(cur, "1")
 			fx.enc.Assume(Eq(ct, Ite(Le(cur, a), fn+"!init", app(fn+"!step", arr, prev, app(fn, arr, a, prev)))))
 			cur = prev
+		}
+	}
+	return IntV(t, tInt)
+}
+
+// evalOrbit evaluates name(s, p) for a user-defined orbit function: an uninterpreted function of (byte memory, slice
+// address, slice length, position) whose defining equation is asserted, unfolded twice, at every term used.
+func (ev *Env) evalOrbit(od *Orbit, e *ECall) Value {
+	if len(e.Args) != 2 {
+		ev.errf("%s(slice, position)", od.Name)
+	}
+	fx := ev.fr.fx
+	s := ev.eval(e.Args[0])
+	pos := ev.evalI(e.Args[1])
+	if s.Kind != KSlice || elemSize(s) != 1 {
+		ev.errf("%s: byte slice expected", od.Name)
+	}
+	el := under(s.Typ).(*types.Slice).Elem()
+	fn := "orbit!" + od.Name
+	if fx.enc.foldSeen == nil {
+		fx.enc.foldSeen = map[string]bool{}
+	}
+	if !fx.enc.foldSeen["def:"+fn] {
+		fx.enc.foldSeen["def:"+fn] = true
+		st := &State{Cells: map[interface{}]Value{}, Heap: map[string]Term{"M." + typeKey(el): "m"}, Brk: "0"}
+		sub := &Env{fr: ev.fr, vars: map[string]Value{}, cur: st, old: st, nq: ev.nq, pkg: ev.pkg, bound: map[string]bool{}}
+		sub.vars[od.S] = Value{Kind: KSlice, T: "sp", Len: "sl", Cap: "sl", Typ: s.Typ}
+		sub.vars[od.P] = IntV("p", tInt)
+		sub.bound[od.S], sub.bound[od.P] = true, true
+		fx.enc.quiet++
+		stopT := sub.evalB(od.Stop)
+		nextT := sub.evalI(od.Next)
+		fx.enc.quiet--
+		sig := "((m (Array Int Int)) (sp Int) (sl Int) (p Int))"
+		fx.enc.foldDefs = append(fx.enc.foldDefs,
+			fmt.Sprintf("(define-fun %s!stop %s Bool %s)\n(define-fun %s!next %s Int %s)\n(declare-fun %s ((Array Int Int) Int Int Int) Int)\n", fn, sig, stopT, fn, sig, nextT, fn))
+		if fx.enc.orbitLemmas == nil {
+			fx.enc.orbitLemmas = map[string]string{}
+		}
+		// lemma: some position satisfies the stop predicate, whatever the memory and the slice (so that "the value of the
+		// orbit function is a stopping position" is consistent even for orbits that never stop)
+		fx.enc.orbitLemmas["lemma:orbit-"+od.Name+"/stop-satisfiable"] = fmt.Sprintf("(define-fun %s!stop %s Bool %s)\n(declare-const m (Array Int Int)) (declare-const sp Int) (declare-const sl Int)\n(assert (forall ((p Int)) (not (%s!stop m sp sl p))))\n(check-sat)\n", fn, sig, stopT, fn)
+	}
+	arr := fx.heapOf(ev.cur, "M."+typeKey(el))
+	t := app(fn, arr, s.T, s.Len, pos)
+	if fx.enc.quiet == 0 {
+		cur := pos
+		for d := 0; d < 2; d++ {
+			ct := app(fn, arr, s.T, s.Len, cur)
+			if fx.enc.foldSeen[ct] {
+				break
+			}
+			fx.enc.foldSeen[ct] = true
+			nx := app(fn+"!next", arr, s.T, s.Len, cur)
+			fx.enc.Assume(Eq(ct, Ite(app(fn+"!stop", arr, s.T, s.Len, cur), cur, app(fn, arr, s.T, s.Len, nx))))
+			// the value is a stopping position (the stop predicate is satisfiable: checked once per orbit as a lemma obligation)
+			fx.enc.Assume(app(fn+"!stop", arr, s.T, s.Len, ct))
+			cur = nx
 		}
 	}
 	return IntV(t, tInt)
